@@ -27,8 +27,8 @@ except Exception:  # noqa: BLE001
 PROPERTY = "C19"
 LEVEL = "exploration"
 TIERS = {
-    "quick": {"wall": 40, "chunk": 40, "shrink_budget": 300, "shrink_wall": 60},
-    "thorough": {"wall": 600, "chunk": 100, "shrink_budget": 600, "shrink_wall": 240},
+    "quick": {"wall": 33, "optimize_wall": 7, "chunk": 40, "shrink_budget": 300, "shrink_wall": 60},
+    "thorough": {"wall": 600, "optimize_wall": 90, "chunk": 100, "shrink_budget": 600, "shrink_wall": 240},
 }
 RULE = (
     "each run = one seeded IRv11+ model (nested subgraphs, functions, values of known and unknown rank) and a history of 15-60 ops drawn from "
